@@ -349,6 +349,10 @@ def build(prop, tier="quick"):
     H("Data_assign", "Data *d; const Data *r;", "Data_assign(d, r)")
     if prop == "C07":
         H("Equation_guard", "Boxed_Value *b; int o;", "Equation_guard(b, o)")
+    if tier == "thorough" and prop == "C07":
+        import engine_probe
+        rc, cases, err = engine_probe.run("c07")
+        kb.static_facts.append(("native battery (thorough tier): probe_engine.cpp c07 - 24 ways to modify a const value are all refused on the real engine", rc == 0 and not cases, (err.strip() + " " + str(cases[:3]))[:400]))
     kb.assumptions += [
         "A7: std::type_info equality is identity of the type (modelled as an id comparison)",
         "std::shared_ptr<Data> is a plain pointer here; chaiscript::detail::Any (m_obj) and attributes (m_attrs) are dropped from Data - "
